@@ -118,6 +118,7 @@ impl MutationParser {
 
     pub fn parse(p: &str, data_model: &DataModel) -> Result<Self, Error> {
         let mut mutation = MutationParser::new();
+        super::check_nesting(p, super::MAX_MUTATION_NESTING)?;
 
         let parse = match PestParser::parse(Rule::mutation, p) {
             Err(e) => {
